@@ -225,6 +225,15 @@ def main():
         chk.case(json.dumps(["integer_" + which, shp], sort_keys=True))
         check_shape(chk, dict(shp, integer_field=which), rng, work, results_override=(cfgm, resm, coords))
         chk.traces += 1
+    # a PART of a series is saved (the spin-up step dropped; every second step): the file describes the results it was
+    # given - their labels, their met values - not the configuration's full series
+    for shp, pick in (({"nt": 2, "ns": 4, "nl": 0, "ts": "label", "forcing": "ustar"}, [1, 2, 3]), ({"nt": 1, "ns": 4, "nl": 2, "ts": "number", "forcing": "ustar"}, [0, 2]),
+                      ({"nt": 2, "ns": 3, "nl": 1, "ts": "index", "forcing": "z0"}, [2, 1])):
+        cfgm, resm, coords = build(shp, rng)
+        resm = {name: [lst[i_] for i_ in pick] for name, lst in resm.items()}
+        chk.case(json.dumps(["part of a series", shp, pick], sort_keys=True))
+        check_shape(chk, dict(shp, ns=len(pick), part_of_series=pick), rng, work, results_override=(cfgm, resm, coords))
+        chk.traces += 1
     # histories of saves and loads over paths in one process (spec/NetcdfFiles.tla)
     rf = run_tlc("NetcdfFiles", "MC_NetcdfFiles", workers=4)
     chk.add_tlc("MC_NetcdfFiles", rf)
